@@ -200,6 +200,7 @@ PROPERTIES["C01"] = {
         K("c01_data_seed_reproduces_each_execution", module="kp", timeout=900),
         K("c01_nd_checker_record_then_replay", module="kp", timeout=900),
         K("c01_replay_refuses_missing_task", module="kp", timeout=900),
+        K("c01_replay_fidelity_4", module="kp", tier="thorough", timeout=2400),
     ],
     "functions_encoded": [
         "shuttle_schedulers::replay::ReplayScheduler::{new_from_schedule, new_execution, next_task, next_u64}",
